@@ -642,13 +642,48 @@ func mutateJSON(t *rapid.T, v any, k int) any {
 		apply func()
 	}
 	for i := 0; i < k; i++ {
-		var sites []func()
+		var sites, retargets []func()
+		// identifiers the document declares: a reference may be retargeted to any of them
+		var declared []string
+		var collect func(v any)
+		collect = func(v any) {
+			switch x := v.(type) {
+			case map[string]any:
+				for _, key := range hx.SortedKeys(x) {
+					if s, ok := x[key].(string); ok && (key == "bom-ref" || key == "SPDXID") && s != "" && len(declared) < 400 {
+						declared = append(declared, s)
+					}
+					collect(x[key])
+				}
+			case []any:
+				for _, e := range x {
+					collect(e)
+				}
+			}
+		}
+		collect(v)
 		var walk func(v any)
 		walk = func(v any) {
 			switch x := v.(type) {
 			case map[string]any:
 				for _, key := range hx.SortedKeys(x) {
 					child := x[key]
+					if len(declared) > 1 {
+						switch key {
+						case "ref", "spdxElementId", "relatedSpdxElement":
+							if _, ok := child.(string); ok {
+								kk, xx := key, x
+								retargets = append(retargets, func() { xx[kk] = declared[rapid.IntRange(0, len(declared)-1).Draw(t, "retarget")] })
+							}
+						case "dependsOn", "documentDescribes", "hasFiles":
+							if arr, ok := child.([]any); ok && len(arr) > 0 {
+								aa := arr
+								retargets = append(retargets, func() {
+									aa[rapid.IntRange(0, len(aa)-1).Draw(t, "retargetAt")] = declared[rapid.IntRange(0, len(declared)-1).Draw(t, "retarget")]
+								})
+							}
+						}
+					}
 					switch key {
 					case "bomFormat", "specVersion", "spdxVersion", "SPDXID", "name", "dataLicense", "documentNamespace", "creationInfo", "type", "bom-ref", "ref":
 					default:
@@ -681,6 +716,11 @@ func mutateJSON(t *rapid.T, v any, k int) any {
 			}
 		}
 		walk(v)
+		if len(retargets) > 0 && rapid.IntRange(0, 2).Draw(t, "kind") == 0 {
+			hx.Class("mutation:reference_retargeted")
+			retargets[rapid.IntRange(0, len(retargets)-1).Draw(t, "rsite")]()
+			continue
+		}
 		if len(sites) == 0 {
 			return v
 		}
